@@ -17,6 +17,25 @@ ORDER_BREAKERS = ("sort", "sort_by", "sort_by_key", "sort_unstable", "sort_unsta
                   "rotate_right", "swap_remove", "insert", "retain", "retain_mut", "drain", "truncate", "clear", "pop", "remove", "split_off", "resize", "extend_from_slice", "append")
 
 
+
+def _same_flag_local(fn, b1, b2):
+    """both switches test a copy of one single-definition local (the same value, not a recomputation that merely looks alike)"""
+    def root(b):
+        d = fn.blocks[b].term.j.get("discr", {})
+        pl = d.get("move") or d.get("copy")
+        seen = 0
+        while pl and not pl.get("p") and seen < 4:
+            seen += 1
+            ds = [x for x in prim.local_defs(fn).get(pl["l"], []) if x[1] != "partial"]
+            if len(ds) == 1 and ds[0][1] == "assign" and ds[0][2].rv.k == "use" and ds[0][2].rv.ops[0].place is not None and not ds[0][2].rv.ops[0].place.proj:
+                pl = {"l": ds[0][2].rv.ops[0].place.local}
+                continue
+            return pl["l"] if len(ds) == 1 else None
+        return None
+    r1, r2 = root(b1), root(b2)
+    return r1 is not None and r1 == r2
+
+
 def vec_calls_on(f, local):
     """(bb, term, name) of calls whose receiver (arg 0) refers to user local `local`"""
     out = []
@@ -93,7 +112,8 @@ def run(ctx):
                 o = prim._origin_of_def(pa, d, 8, {paths})
                 if any(x.k == "field" and x.a == "new_paths" for x in o.walk()) or "new_paths" in o.fmt():
                     repl.append((d, o))
-            ok = len(repl) == 1
+            # the compiler may emit the assignment twice (one copy per drop-flag state of the old value): same value, same guard
+            ok = len(repl) >= 1 and len({o_.fmt() for _, o_ in repl}) == 1 and len({tuple(sorted((g_["bb"], str(g_["bool"])) for g_ in prim.dominating_guards(pa, d_[0]) if g_["bool"] is not None and not g_["pred"].fmt().startswith("phi("))) for d_, _ in repl}) == 1
             if ok:
                 d, o = repl[0]
                 cn = [c.a["name"] for c in o.call_nodes()]
@@ -102,6 +122,21 @@ def run(ctx):
                 is_c = lambda v: (lambda x: x.strip().k == "const" and x.strip().a.get("v") == v)
                 anyo = lambda x: True
                 only_dot = prim.atom_holds(atoms, "eq", anyo, is_c(".")) is not None and prim.atom_holds(atoms, "eq", lambda x: any(c.a["name"] == "len" for c in x.call_nodes()), is_c(1)) is not None
+                if not only_dot:
+                    # or: under the very flag that made parse_args supply the default "." (no operand was given) — an
+                    # explicit "." is an operand like any other
+                    dots = [bb for bb, tt in pa.calls() if tt.j.get("callee_name") == "push" and any(c.get("v") == "." for c in prim.origin_of_operand(pa, tt.args[1]).consts())]
+                    # (the '.' push guard itself is decided by default-dot-iff-no-operand above)
+                    same_flag = False
+                    for gd1 in gs:
+                        p1 = prim.expand_single_def_vars(pa, gd1["pred"]).strip()
+                        if gd1["bool"] is not True or not (p1.k == "bin" and p1.a == "Eq"):
+                            continue
+                        for db in dots:
+                            for gd2 in prim.dominating_guards(pa, db):
+                                if gd2["bool"] is True and prim.expand_single_def_vars(pa, gd2["pred"]).fmt() == p1.fmt() and _same_flag_local(pa, gd1["bb"], gd2["bb"]):
+                                    same_flag = True
+                    only_dot = same_flag and bool(dots)
                 ok = set(cn) <= {"to_vec", "clone", "to_owned", "deref", "as_ref", "into"} and only_dot
             ctx.ob("R1", "files0-replaces-only-implicit-dot", ok, "the -files0-from list must replace the starting points only when they are just the implicit '.', unchanged and in order (otherwise: error 'file operands cannot be combined')", fn=pa, how="local writers + dominating guards")
     # ---- R2 do_find -------------------------------------------------------------------------------------------
@@ -159,9 +194,8 @@ def run(ctx):
     if pf is not None:
         bl = C.find_local(pf, "buffer", ty="std::vec::Vec<u8>")
         sl = C.find_local(pf, "buffer_split", ty="std::vec::Vec<&[u8]>")
-        gl = C.find_local(pf, "string_segments", ty="std::vec::Vec<std::string::String>")
-        if not (bl and sl and gl):
-            ctx.missing("R4", "locals buffer/buffer_split/string_segments of parse_files0_args (role anchors)")
+        if not (bl and sl):
+            ctx.missing("R4", "locals buffer/buffer_split of parse_files0_args (role anchors)")
         else:
             bc = vec_calls_on(pf, bl[0])
             names = sorted({n for _, _, n in bc})
@@ -214,43 +248,69 @@ def run(ctx):
                                     guard = True
                 ok = last_idx and guard
             ctx.ob("R4", "one-trailing-empty-field-dropped", ok, "exactly the last field is removed, and only when it is empty (input ends with NUL); an unterminated last name is kept as is", fn=pf, how="provenance slice + dominating guard")
-            # segments: built from all fields in order; retain(!is_empty) under any(is_empty) with a diagnostic
-            gcalls = vec_calls_on(pf, gl[0])
-            gn = [n for _, _, n in gcalls]
-            bad = [n for n in gn if n in ORDER_BREAKERS and n != "retain"]
-            ctx.ob("R4", "names-keep-order", not bad, "the name list is modified with %s" % bad, fn=pf, how="call sites on the name list")
-            defs = [d for d in prim.local_defs(pf).get(gl[0], []) if d[1] != "partial"]
-            ok = len(defs) == 1
+            # every field, front to back, decides for itself: a valid non-empty name is appended as it is; an empty name and a
+            # name that is not valid Unicode are diagnosed and skipped (the latter also marks the run as failed)
+            def role(t):
+                n = t.j.get("callee_name")
+                c = t.callee or ""
+                if n == "next" and "IntoIter" in (t.j.get("callee_inst") or ""):
+                    return "next"
+                if n == "into_iter":
+                    return "into_iter"
+                if n == "from_utf8":
+                    return "utf8"
+                if n == "push":
+                    return "push"
+                if c.endswith("_eprint"):
+                    return "diag"
+                if prim.is_str_eq(t):
+                    return "is_empty"
+                return None
+            g = C.G(prim.event_graph(pf, role))
+            its = [(b, t) for b, t in pf.calls() if t.j.get("callee_name") == "into_iter"]
+            ok = len(its) == 1 and prim.user_local_behind(pf, its[0][1].args[0]) == sl[0] and "std::vec::Vec" in (its[0][1].j.get("callee_inst") or "")
+            ok = ok and not [t.j.get("callee_name") for b, t in pf.calls() if t.j.get("callee_name") in ("rev", "skip", "take", "step_by", "filter", "take_while", "skip_while", "filter_map", "retain", "sort", "dedup")]
+            ctx.ob("R4", "names-from-all-fields", ok, "the names must be every field in order: a plain front-to-back iteration over the split fields (no rev/skip/filter); iterates %s" % [prim.origin_of_operand(pf, t.args[0]).fmt()[:60] for b, t in its], fn=pf, how="call sites + provenance")
+            un = g.nodes("utf8")
+            okt = len(un) == 1 and len(g.nodes("next")) == 1
+            if okt:
+                nx = g.nodes("next")[0]
+                okt = g.succ(nx, "1") == un and all(x.startswith("RET(agg:Result::Ok") for x in g.succ(nx, "0"))
+                oks = g.succ(un[0], "0")
+                ers = g.succ(un[0], "1")
+                okt = okt and len(oks) == 1 and C.base(oks[0]) == "is_empty" and bool(ers) and all(C.base(x) == "diag" for x in ers)
+                if okt:
+                    ie = oks[0]
+                    okt = [C.base(x) for x in g.succ(ie, "0")] == ["push"] and all(C.base(x) == "diag" for x in g.succ(ie, "else")) and bool(g.succ(ie, "else"))
+                    for x in g.succ(ie, "0") + g.succ(ie, "else") + ers:
+                        okt = okt and g.succ(x) == [nx]
+            ctx.ob("R4", "per-name-decision", okt, "per field: valid and non-empty => appended; empty => diagnostic, skipped; not valid Unicode => diagnostic, skipped; then the next field — events: %s" % g.fmt()[:400], fn=pf, how="event graph")
+            for b, t in pf.calls():
+                if prim.is_str_eq(t):
+                    lits = [c.get("v") for a in t.args for c in prim.origin_of_operand(pf, a).consts() if c.get("k") == "str"]
+                    ctx.ob("R4", "empty-name-test", lits == [""], "the name is compared with %s; oracle the empty string" % lits, fn=pf, where=prim.site(pf, b), how="constant operand", nontrivial=False)
+            ps = [(b, t) for b, t in pf.calls() if t.j.get("callee_name") == "push"]
+            ok = len(ps) == 1
             if ok:
-                o = prim.expand_single_def_vars(pf, prim._origin_of_def(pf, defs[0], 10, {gl[0]}))
-                cn = [c.a["name"] for c in o.call_nodes()]
-                ok = set(cn) <= {"collect", "map", "filter_map", "iter", "deref", "into_iter", "split"} and "iter" in cn and not ({"rev", "skip", "take", "step_by", "filter", "take_while", "skip_while"} & set(cn)) and any(x.k == "var" and x.a.get("local") == sl[0] for x in prim.origin_of_operand(pf, defs[0][2].args[0]).walk() or []) if False else set(cn) <= {"collect", "map", "filter_map", "iter", "deref", "into_iter", "split", "new"} and "iter" in cn
-            ctx.ob("R4", "names-from-all-fields", ok, "the names must be every field, converted one by one in order (iter/map/collect only; no rev/skip/filter)", fn=pf, how="provenance slice")
-            ret = [(b, t) for b, t, n in gcalls if n == "retain"]
-            ok = len(ret) == 1
-            diag = False
+                ro = prim.expand_single_def_vars(pf, prim.origin_of_operand(pf, ps[0][1].args[0]))
+                vo = prim.origin_of_operand(pf, ps[0][1].args[1])
+                vn = [c.a["name"] for c in vo.call_nodes()]
+                ok = (any(x.k == "field" and x.a == "new_paths" for x in ro.walk()) or "new_paths" in ro.fmt()) and set(vn) <= {"to_string", "to_owned", "into", "from_utf8", "next", "deref", "as_ref"} and "from_utf8" in vn
+            ctx.ob("R4", "names-appended-in-order", ok, "each usable name is pushed, unchanged, onto config.new_paths as it is met", fn=pf, how="provenance slice")
+            # unusable (non-Unicode) names make the run fail: the flag set on that branch is what Config carries
+            ws = [(f, val) for f, bb, obj, val, kind in prim.field_writes(prog, "findutils::find::Config", "files0_invalid_names") if f.path == pf.path]
+            ok = len(ws) == 1
             if ok:
-                b, t = ret[0]
-                co = prim.origin_of_operand(pf, t.args[1]).strip()
-                cf = prog.fns.get(str(co.a)[8:]) if co.k == "agg" and str(co.a).startswith("closure:") else None
-                ok = False
-                if cf is not None:
-                    ctx.analysed_fns.add(cf.path)
-                    ro = prim.origin_of_local(cf, 0).strip()
-                    ok = ro.k == "un" and ro.a == "Not" and ro.kids[0].strip().k == "call" and ro.kids[0].strip().a["name"] == "is_empty"
-                # diagnostic on the same branch
-                eps = [bb for bb, tt in pf.calls() if (tt.callee or "").endswith("io::_eprint") or tt.j.get("callee_name") == "_eprint"]
-                diag = any(pf.dominates(e, b) or pf.dominates(b, e) for e in eps) and bool(eps)
-                gs = prim.dominating_guards(pf, b)
-                ok = ok and any(gd["pred"].strip().k == "call" and gd["pred"].strip().a["name"] == "any" and gd["bool"] is True for gd in gs)
-            ctx.ob("R4", "empty-names-diagnosed-and-skipped", ok and diag, "empty names must be removed (retain(!is_empty)) exactly when some are present, with a diagnostic on stderr", fn=pf, how="closure body + dominating guard")
-            ext = [(b, t) for b, t in pf.calls() if t.j.get("callee_name") == "extend"]
-            ok = len(ext) == 1
-            if ok:
-                so = prim.origin_of_operand(pf, ext[0][1].args[1]).strip()
-                ro = prim.expand_single_def_vars(pf, prim.origin_of_operand(pf, ext[0][1].args[0]))
-                ok = (so.k == "var" and so.a.get("local") == gl[0]) and (any(x.k == "field" and x.a == "new_paths" for x in ro.walk()) or "new_paths" in ro.fmt())
-            ctx.ob("R4", "names-appended-in-order", ok, "the names must be appended (extend) to config.new_paths as a whole, in order", fn=pf, how="provenance slice")
+                fl = [x.a.get("local") for x in ws[0][1].walk() if x.k == "var"]
+                ok = len(fl) == 1
+                if ok:
+                    trues = [bb for bb, v in prim.const_assigns_to(pf, fl[0]) if v is True]
+                    er_blocks = [b for b, t in pf.calls() if (t.callee or "").endswith("_eprint")]
+                    # set exactly on the invalid-Unicode branch: dominated by the Err edge of from_utf8
+                    def on_err(bb):
+                        return any(gd["labels"] == [1] and any(c.a["name"] == "from_utf8" for c in gd["pred"].call_nodes()) for gd in prim.dominating_guards(pf, bb))
+                    ok = bool(trues) and all(on_err(bb) for bb in trues)
+            ctx.ob("R4", "unusable-names-fail-the-run", ok, "config.files0_invalid_names is set from a flag that becomes true exactly on the not-valid-Unicode branch (do_find turns it into a non-zero exit status, shared rule status-init)", fn=pf, how="field writers + dominating guards")
         # the input selector: "-" = stdin, otherwise the named file
         st = [(b, t) for b, t in pf.calls() if (t.callee or "").startswith("std::io::stdin")]
         op = [(b, t) for b, t in pf.calls() if (t.callee or "").startswith("std::fs::File::open")]
